@@ -3,6 +3,7 @@
 
 mod concr;
 mod crash;
+mod decode;
 mod hooks;
 mod proofs;
 mod rec;
@@ -23,6 +24,7 @@ fn main() {
         "replay" => replay::main(rest),
         "proofs" => proofs::main(rest),
         "crash" => crash::main(rest),
+        "decode" => decode::main(rest),
         other => Err(anyhow::anyhow!("unknown sub-command {other}")),
     };
     if let Err(e) = r {
